@@ -228,3 +228,33 @@ func Param(name string, def int) int {
 	}
 	return def
 }
+
+// Oracle states that val equals the specification value of the class given
+// by the digits; the check driver computes the specification value exactly
+// (/verif/spec) for every class the solver-derived cube table contains.
+func Oracle(name string, val float64, digits ...int) {
+	Relations[name] = Relation{val, append([]int(nil), digits...)}
+}
+
+// NondetBytes returns a string of exactly n arbitrary bytes.
+func NondetBytes(name string, n int) string {
+	b := make([]byte, n)
+	for i := range b {
+		v, ok := val(fmt.Sprintf("%s_b%d", name, i))
+		if ok {
+			b[i] = byte(v)
+		} else {
+			b[i] = 'Z'
+		}
+	}
+	return string(b)
+}
+
+// ByteBuf returns an empty byte buffer with ample capacity (the executor
+// models it as an append-only buffer).
+func ByteBuf() []byte { return make([]byte, 0, 512) }
+
+// AllocCount is, for the executor, the number of heap allocations performed
+// so far on the current path; natively the allocation budget is measured with
+// testing.AllocsPerRun by the replay, so it is constant here.
+func AllocCount() int { return 0 }
